@@ -2,7 +2,6 @@
 package c19
 
 import (
-	"time"
 	"bytes"
 	"crypto"
 	"crypto/ed25519"
@@ -18,6 +17,7 @@ import (
 	mrand "math/rand"
 	"strings"
 	"sync"
+	"time"
 
 	"filippo.io/age"
 	"filippo.io/age/agessh"
@@ -96,11 +96,51 @@ func mkMaterial(typ string, rng *mrand.Rand) *material {
 			m.pem[name] = pem.EncodeToMemory(blk)
 		}
 	}
+	// "O": the key file holds a key of the OTHER SSH type than the declared public key (ed25519 <-> rsa)
+	{
+		var priv crypto.PrivateKey
+		if typ == "ed25519" {
+			rsaOnce.Do(func() {
+				for j := 0; j < 3; j++ {
+					k, err := rsa.GenerateKey(rand.Reader, 2048)
+					if err != nil {
+						vk.Infra("%v", err)
+					}
+					rsaPool = append(rsaPool, k)
+				}
+			})
+			priv = rsaPool[2]
+		} else {
+			seed := make([]byte, 32)
+			rng.Read(seed)
+			priv = ed25519.NewKeyFromSeed(seed)
+		}
+		blk, err := ssh.MarshalPrivateKeyWithPassphrase(priv, "c19-other-type", []byte(pass))
+		if err != nil {
+			vk.Infra("marshal encrypted key: %v", err)
+		}
+		m.pem["O"] = pem.EncodeToMemory(blk)
+	}
 	x, _ := age.GenerateX25519Identity()
 	m.rcp["X"] = x.Recipient()
 	// "T": a stanza of the other SSH key type carrying D's public-key tag (type and tag together address a stanza)
 	h := sha256.Sum256(m.pub["D"].Marshal())
 	tag := base64.RawStdEncoding.EncodeToString(h[:4])
+	// "N": a stanza of the identity's own type whose tag differs from D's only in the padding bits of its last
+	// character (another string; a lenient base64 decoder would read the same four bytes)
+	const b64abc = "ABCDEFGHIJKLMNOPQRSTUVWXYZabcdefghijklmnopqrstuvwxyz0123456789+/"
+	last := strings.IndexByte(b64abc, tag[len(tag)-1])
+	tagN := tag[:len(tag)-1] + string(b64abc[(last&^0xf)|((last+5)&0xf)])
+	if typ == "ed25519" {
+		share, nb := make([]byte, 32), make([]byte, 32)
+		rng.Read(share)
+		rng.Read(nb)
+		m.rcp["N"] = forged{&age.Stanza{Type: "ssh-ed25519", Args: []string{tagN, base64.RawStdEncoding.EncodeToString(share)}, Body: nb}}
+	} else {
+		nb := make([]byte, 256)
+		rng.Read(nb)
+		m.rcp["N"] = forged{&age.Stanza{Type: "ssh-rsa", Args: []string{tagN}, Body: nb}}
+	}
 	if typ == "ed25519" {
 		body := make([]byte, 256)
 		rng.Read(body)
@@ -216,7 +256,10 @@ func Run(tier string) {
 	total := 0
 	for _, typ := range []string{"ed25519", "rsa"} {
 		m := mkMaterial(typ, rng)
-		for _, stored := range []string{"D", "A"} {
+		for _, stored := range []string{"D", "A", "O"} {
+			if stored == "O" && typ == "rsa" && !run.Thorough() {
+				continue // the cross-type key file is symmetric; the quick tier takes the cheaper direction
+			}
 			files := "FilesSmall"
 			maxCalls := 2
 			if run.Thorough() {
